@@ -584,6 +584,10 @@ def cases(draw, tier):
     if tj is not None:
         cell["tridiagonal_jitter"] = tj
     case["settings"] = cell
+    if opn in EXACT_EIG_OPS and draw(st.integers(0, 2)) == 0:
+        # an earlier factorization query on the SAME operator object (fills its caches).  Only in front of the exact
+        # eigen / singular value queries: their contract does not depend on which method an earlier call selected.
+        case["warm"] = draw(st.sampled_from(WARM))
     if opn == "root_inv" and case.get("method") == "lanczos":
         m = draw(st.sampled_from([0, 0, 1, 2, 3]))
         if m:
@@ -875,6 +879,31 @@ def _opname(case):
     return opn
 
 
+EXACT_EIG_OPS = ("eigh", "tl_eigh", "eigvalsh", "tl_eigvalsh", "svd", "tl_svd")
+WARM = ["eigh", "svd", "eigvalsh", "diag:symeig", "root:symeig", "root_inv:symeig", "diag", "cholesky", "to_dense"]
+
+
+def _warm(op, kind):
+    if kind == "eigh":
+        op.eigh()
+    elif kind == "eigvalsh":
+        op.eigvalsh()
+    elif kind == "svd":
+        op.svd()
+    elif kind == "diag:symeig":
+        op.diagonalization(method="symeig")
+    elif kind == "diag":
+        op.diagonalization()
+    elif kind == "root:symeig":
+        op.root_decomposition(method="symeig")
+    elif kind == "root_inv:symeig":
+        op.root_inv_decomposition(method="symeig")
+    elif kind == "cholesky":
+        op.cholesky()
+    else:
+        op.to_dense()
+
+
 def _call(op, case):
     opn = case["op"]
     m = case.get("method")
@@ -966,7 +995,7 @@ def run_case(case):
     u = U[dtn]
     head = r["op"]
     opname = _opname(case)
-    labels = ["op:" + opname, "head:" + head, "dtype:" + dtn, "dom:" + case.get("dom", "?"), "n:%d" % n, "batch:%d" % len(batch), "depth:%d" % depth]
+    labels = ["warm:" + str(case.get("warm", "none")), "op:" + opname, "head:" + head, "dtype:" + dtn, "dom:" + case.get("dom", "?"), "n:%d" % n, "batch:%d" % len(batch), "depth:%d" % depth]
     labels += ["class:" + c for c in R.classes(r)]
     for a in case.get("avoided", ()):
         labels.append("avoided:" + a)
@@ -994,6 +1023,15 @@ def run_case(case):
     err = None
     res = None
     hook_size = None
+    if case.get("warm"):
+        with warnings.catch_warnings():
+            warnings.simplefilter("ignore")
+            with state.apply_settings(cell):
+                try:
+                    with torch.no_grad():
+                        _warm(op, case["warm"])
+                except Exception:
+                    pass  # the warm-up query is judged by its own cases; a half-filled cache is still a legal history
     with warnings.catch_warnings(record=True) as wrun:
         warnings.simplefilter("always")
         with state.linalg_log() as lines, _record_lanczos(calls), state.apply_settings(cell):
